@@ -382,7 +382,8 @@ def write_replay(prop, payload):
 
 
 def write_evidence(prop, ev):
-    d = os.path.join(ROOT, 'evidence')
+    # development runs against a scratch copy (VERIF_REPO) must not overwrite the evidence of /repo
+    d = os.path.join(ROOT, 'evidence') if REPO == '/repo' else os.path.join(ROOT, 'replays', 'dev-evidence')
     os.makedirs(d, exist_ok=True)
     json.dump(ev, open(os.path.join(d, f'{prop}.json'), 'w'), indent=1, default=str)
 
